@@ -606,7 +606,8 @@ class Type2Tag(Tag):
         else:
             if type(error) is nfc.clf.TimeoutError:
                 raise Type2TagCommandError(nfc.tag.TIMEOUT_ERROR)
-            if type(error) is nfc.clf.TransmissionError:
+            if type(error) in (nfc.clf.TransmissionError,
+                               nfc.clf.BrokenLinkError):
                 raise Type2TagCommandError(nfc.tag.RECEIVE_ERROR)
             if type(error) is nfc.clf.ProtocolError:
                 raise Type2TagCommandError(nfc.tag.PROTOCOL_ERROR)
